@@ -376,9 +376,11 @@ def orderTotal (cols : Cols) : List (Row × List (Int × Bool)) → Bool
     (!(keysEq k1 k2) || rowEqOn cols r1 r2) && orderTotal cols ((r2, k2) :: rest)
 
 def finishLevel (cols : Cols) (pairs : List (Row × List (Int × Bool))) (hasOrder : Bool)
-    (offset : Nat) (limit : Option Nat) (detIn : Bool) : EvalOut :=
+    (offset : Nat) (limit : Option Nat) (detIn : Bool) (ambiguous : Bool := false) : EvalOut :=
   let sorted := if hasOrder then isort (fun a b => keysLe a.2 b.2) pairs else pairs
-  let total := hasOrder && orderTotal cols sorted
+  -- `ambiguous`: DISTINCT merged rows whose ORDER BY keys differ (the keys are not columns of the
+  -- select list), so the database may order the surviving row by any of them
+  let total := hasOrder && !ambiguous && orderTotal cols sorted
   let allSame := match sorted with
     | [] => true
     | (r0, _) :: rest => rest.all (fun p => rowEqOn cols p.1 r0)
@@ -411,8 +413,10 @@ def Query.eval (tables : List (List Row)) : Query → EvalOut
                 | some (_, x) => SqlExpr.eval e x
                 | none => none,
        orderBy.map (fun (x, asc) => ((SqlExpr.eval e x).getD 0, asc))))
+    let ambiguous := distinct && !orderBy.isEmpty &&
+      !(pairs.all (fun p => pairs.all (fun q => !(rowEqOn cols p.1 q.1) || keysEq p.2 q.2)))
     let pairs := if distinct then distinctPairs cols pairs [] else pairs
-    finishLevel cols pairs (!orderBy.isEmpty) offset limit d0
+    finishLevel cols pairs (!orderBy.isEmpty) offset limit d0 ambiguous
   | .compound all l r cols orderBy offset limit =>
     let lo := Query.eval tables l
     let ro := Query.eval tables r
